@@ -178,3 +178,38 @@ func H_C10_sacramento_storm3_full() { c10sacStorm(12, 6, 9.9, 4.5, true, 0.5) }
 // H_C10_sacramento_storm2_full_nopet: as storm2_full without evaporation demand.
 //vsym:prop=C10 tier=quick ints=int floats=real timeout=60 cut=6 unwind=12 prunefrom=1 prune=all concf2i=1 wall=600
 func H_C10_sacramento_storm2_full_nopet() { c10sacStorm(6, 3, 4.9, 2.5, true, 0) }
+
+// H_C10_sacramento_storm_sym: the storm step of c10sacStorm with SYMBOLIC parameters (capacities,
+// rates, percolation constants in the ranges of H_C10_sacramento_step, upper free water capacity
+// up to 10 mm) on the pervious area alone, upper tension store full, rain <= 5.08 mm (single
+// pass), 1 to 3 increments as the code computes (increment count concretised by forking).
+// Counterexample searches (30 s each) for the water account and the store bounds; what the solver
+// answers unsat is proved.
+//vsym:prop=C10 tier=thorough ints=int floats=real timeout=60 cut=6 unwind=12 prunefrom=1 prune=all concf2i=1 wall=1800
+func H_C10_sacramento_storm_sym() {
+	rain, pet := c10in("rain", 0, 5.08), c10in("pet", 0, 2)
+	lzpk, lzsk, uzk := c10in("lzpk", 0.001, 0.5), c10in("lzsk", 0.001, 0.5), c10in("uzk", 0.001, 0.5)
+	uztwm, uzfwm := c10in("uztwm", 1, 100), c10in("uzfwm", 1, 10)
+	lztwm, lzfsm, lzfpm := c10in("lztwm", 1, 300), c10in("lzfsm", 1, 100), c10in("lzfpm", 1, 300)
+	pfree, zperc := c10in("pfree", 0, 1), c10in("zperc", 0, 50)
+	rserv := c10in("rserv", 0, 0.4)
+	uzfwc := c10in("uzfwc", 0, 10)
+	lztwc := c10in("lztwc", 0, 300)
+	lzfpc := c10in("lzfpc", 0, 300)
+	lzfsc := c10in("lzfsc", 0, 100)
+	vsym.Assume(uzfwc <= uzfwm && lztwc <= lztwm && lzfpc <= lzfpm && lzfsc <= lzfsm && rain >= pet)
+	aet, ro, imp, surf, bf := rrOut(1), rrOut(1), rrOut(1), rrOut(1), rrOut(1)
+	a1, b1, c1, d1, e1, _ := sacramento(rrOne(rain), rrOne(pet), uztwm, uzfwc, lztwc, lzfpc, lzfsc, uztwm+lztwc,
+		lzpk, lzsk, uzk, uztwm, uzfwm, lztwm, lzfsm, lzfpm, pfree, 1.0, zperc, 0, 0, 0, 0, 0, rserv,
+		1, 0, 0, 0, 0, aet, ro, imp, surf, bf)
+	vsym.Reach("returned")
+	before := uztwm + uzfwc + lztwc + lzfpc + lzfsc
+	after := a1 + b1 + c1 + d1 + e1
+	vsym.HuntNear(rain, after-before+aet.Get1(0)+ro.Get1(0), 1e-7, 1e-9, "storm-step-water-account-closes")
+	vsym.Hunt(a1 >= -rrAbs && a1 <= uztwm+rrAbs, "upper-tension-store-within-capacity")
+	vsym.Hunt(b1 >= -rrAbs && b1 <= uzfwm+rrAbs, "upper-free-store-within-capacity")
+	vsym.Hunt(c1 >= -rrAbs && c1 <= lztwm+rrAbs, "lower-tension-store-within-capacity")
+	vsym.Hunt(d1 >= -rrAbs && d1 <= lzfpm+rrAbs, "lower-primary-store-within-capacity")
+	vsym.Hunt(e1 >= -rrAbs && e1 <= lzfsm+rrAbs, "lower-supplemental-store-within-capacity")
+	vsym.Hunt(ro.Get1(0) >= -rrAbs && bf.Get1(0) >= -rrAbs && surf.Get1(0) >= -rrAbs && aet.Get1(0) >= -rrAbs, "fluxes-nonnegative")
+}
